@@ -40,15 +40,29 @@ def registry():
         class VerifFinalIsCat(RpcError, error_id='bad_return'):
             pass
         _extra.update(a=VerifFullId, b=VerifFinal, c=VerifCatName, d=VerifFinalIsCat)
-    return {tuple(k.split('.')): v for k, v in RpcError.__handlers__.items()}
+    return own_ids({tuple(k.split('.')): v for k, v in RpcError.__handlers__.items()})
+
+
+OWN = {'VerifFullId': 'proto.alpha.tez.overflow', 'VerifFinal': 'overflow', 'VerifCatName': 'unknown_cat.bad_return', 'VerifFinalIsCat': 'bad_return',
+       'VerifLateFinal': 'unknown_name', 'VerifLateCatName': 'unknown_cat.unknown_name', 'VerifLateFull': 'proto.alpha.tez.unknown_name'}
+
+
+def own_ids(reg):
+    """The shipped classes are read from the code; the classes this check registers itself are entered under the ids it asked for
+    (a class registered for an id is the class of exactly that id, whatever the registration does with the string)."""
+    out = {k: v for k, v in reg.items() if v.__name__ not in OWN}
+    for v in set(reg.values()):
+        if v.__name__ in OWN:
+            out[tuple(OWN[v.__name__].split('.'))] = v
+    return out
 
 
 def ids(quick):
-    protos = ['alpha'] if quick else ['alpha', '024-PtTALLiN']
+    protos = ['alpha', '024-PtTALLiN']
     comps = ['michelson_v1', 'tez', 'script_rejected', 'bad_return', 'bad_contract_parameter', 'overflow', 'unknown_cat', 'unknown_name']
     out = []
     for p in protos:
-        for n in (1, 2, 3):
+        for n in ((1, 2) if quick and p != 'alpha' else (1, 2, 3)):      # a class registered for a full id of one protocol says nothing about another protocol
             for cs in itertools.product(comps, repeat=n):
                 out.append(('proto', p) + cs)
     for n in (1, 2):
@@ -84,12 +98,12 @@ def reg_class(reg, name):
     raise KeyError(name)
 
 
-def request_class(errs, kind, n):
-    """class raised by RpcNode.request when the node answers n times 500 with this error list (kind permanent: answered once; temporary: retried until exhausted)"""
+def request_class(errs, kind, n, status=500):
+    """class raised by RpcNode.request when the node answers n times <status> with this error list (kind permanent: answered once; temporary: retried until exhausted)"""
     import json as _json
     from pytezos.rpc.node import RpcNode
     body = _json.dumps([{'id': '.'.join(i), 'kind': kind} for i in errs])
-    boundary.reset([boundary.make_response(500, 'application/json', body) for _ in range(n)])
+    boundary.reset([boundary.make_response(status, 'application/json', body) for _ in range(n)])
     try:
         RpcNode('http://c27.invalid').request('GET', 'chains/main/blocks/head')
         return None, 0
@@ -132,13 +146,13 @@ def run(ctx):
             nreq += 1
             want = reg_class(reg, st['class'])
             transient_ok = not any(e[0] == 'proto' for e in errs)
-            for kind, n in (('permanent', 1),) + ((('temporary', 12),) if transient_ok else ()):
-                got, sent = request_class(errs, kind, n)
-                ctx.count(('request', errs, kind), nontrivial=True)
+            for kind, n, status in (('permanent', 1, 500), ('permanent', 1, (400, 403, 409, 410)[nreq % 4])) + ((('temporary', 12, 500),) if transient_ok else ()):
+                got, sent = request_class(errs, kind, n, status)
+                ctx.count(('request', errs, kind, status), nontrivial=True)
                 ctx.replayed += 1
                 if got is not want:
-                    ctx.mismatch('C27:request:%s:wrong-class' % kind, 'node answers 500 with the %s errors %s (%d answers sent): the request raised %s, the class of the list is %s' % (
-                        kind, ['.'.join(e) for e in errs], sent, getattr(got, '__name__', got), want.__name__), {'errs': to_json(errs), 'class': st['class'], 'request': kind})
+                    ctx.mismatch('C27:request:%s:%s:wrong-class' % (kind, '5xx' if status >= 500 else '4xx'), 'node answers %d with the %s errors %s (%d answers sent): the request raised %s, the class of the list is %s' % (
+                        status, kind, ['.'.join(e) for e in errs], sent, getattr(got, '__name__', got), want.__name__), {'errs': to_json(errs), 'class': st['class'], 'request': kind, 'status': status})
     # ---- classes registered later: "registered" means registered at the time of the call, also for ids that were resolved before ----
     reg2 = register_late()
     late_ids = [i for i in all_ids if 'unknown_name' in i or 'unknown_cat' in i]
@@ -175,7 +189,7 @@ def register_late():
         class VerifLateFull(RpcError, error_id='proto.alpha.tez.unknown_name'):
             pass
         _extra['late'] = (VerifLateFinal, VerifLateCatName, VerifLateFull)
-    return {tuple(k.split('.')): v for k, v in RpcError.__handlers__.items()}
+    return own_ids({tuple(k.split('.')): v for k, v in RpcError.__handlers__.items()})
 
 
 def replay(ctx, rep):
@@ -184,7 +198,7 @@ def replay(ctx, rep):
     c = rep['case']
     if c.get('request'):
         errs = [tuple(e) for e in c['errs']]
-        got, sent = request_class(errs, c['request'], 1 if c['request'] == 'permanent' else 12)
+        got, sent = request_class(errs, c['request'], 1 if c['request'] == 'permanent' else 12, c.get('status', 500))
         want = reg_class(reg, c['class'])
         print('REPRODUCED' if got is not want else 'NOT-REPRODUCED', 'C27:request:%s:wrong-class' % c['request'], getattr(got, '__name__', got), want.__name__)
         return 0 if got is want else 1
